@@ -65,6 +65,37 @@ type minCase struct {
 	Rec                                int // 0 no recorder, -1 Init fails, -2 never fails, k>0 the k-th Record call (only) fails
 	StatAt                             int // 0 no Problem.Status, k>0 terminal from the k-th call on
 	StatKind                           int // 0 (NotTerminated, err) 1 (custom, nil) 2 (custom, err)
+
+	// Prev are earlier Minimize calls made with the same method value before
+	// the run described above (method reuse history). Only the objective and
+	// Settings fields of the entries are used; see history.
+	Prev []minCase `json:",omitempty"`
+}
+
+// history returns the runs of the case in execution order, the last one being
+// the case itself. All runs share the method configuration; GuessAndCheck and
+// ListSearch are bound to a dimension and a start (Rander mean, Locs), so their
+// earlier runs use the objective of the case with other Settings.
+func (c minCase) history() []minCase {
+	runs := make([]minCase, 0, len(c.Prev)+1)
+	for _, p := range c.Prev {
+		q := c
+		q.Prev = nil
+		if c.Method != mGuess && c.Method != mList {
+			q.Obj, q.Dim, q.KappaExp, q.Start, q.Seed = p.Obj, p.Dim, p.KappaExp, p.Start, p.Seed
+			if q.Obj == 0 && q.Dim < 1 {
+				q.Dim = 1
+			}
+		}
+		q.NoGrad, q.Bad, q.BadAfter = p.NoGrad, p.Bad, p.BadAfter
+		q.FuncLim, q.GradLim, q.HessLim, q.IterLim = p.FuncLim, p.GradLim, p.HessLim, p.IterLim
+		q.GThresh, q.Conv, q.ConvIter, q.ConvAbs, q.Init, q.Concurrent = p.GThresh, p.Conv, p.ConvIter, p.ConvAbs, p.Init, p.Concurrent
+		q.Rec, q.StatAt, q.StatKind = p.Rec, p.StatAt, p.StatKind
+		runs = append(runs, q)
+	}
+	last := c
+	last.Prev = nil
+	return append(runs, last)
 }
 
 var (
@@ -257,11 +288,34 @@ func (g *guardMethod) Run(operation chan<- optimize.Task, result <-chan optimize
 	g.inner.Run(operation, result, tasks)
 }
 
-func (c minCase) method(o *objective) optimize.Method {
+// builtMethod is a method value together with the random source it draws
+// from; the source is a parameter of the user, not state of the method, and is
+// put back to its seed before every run so that a reused method value and a
+// fresh one see the same random numbers.
+type builtMethod struct {
+	m      optimize.Method
+	pcg    *rand.PCG
+	stream uint64
+}
+
+func (b *builtMethod) reseed(seed uint64) {
+	if b.pcg != nil {
+		b.pcg.Seed(seed, b.stream)
+	}
+}
+
+func (c minCase) method(o *objective) optimize.Method { return c.build(o).m }
+
+func (c minCase) build(o *objective) *builtMethod {
+	m, pcg, stream := c.buildParts(o)
+	return &builtMethod{m: m, pcg: pcg, stream: stream}
+}
+
+func (c minCase) buildParts(o *objective) (optimize.Method, *rand.PCG, uint64) {
 	gs := c.gradStop()
 	switch c.Method {
 	case mGD:
-		return &optimize.GradientDescent{Linesearcher: c.linesearcher(), StepSizer: c.stepSizer(), GradStopThreshold: gs}
+		return &optimize.GradientDescent{Linesearcher: c.linesearcher(), StepSizer: c.stepSizer(), GradStopThreshold: gs}, nil, 0
 	case mCG:
 		var v optimize.CGVariant
 		switch c.Variant {
@@ -276,27 +330,29 @@ func (c minCase) method(o *objective) optimize.Method {
 		case 5:
 			v = &optimize.HagerZhang{}
 		}
-		return &optimize.CG{Linesearcher: c.linesearcher(), Variant: v, InitialStep: c.stepSizer(), GradStopThreshold: gs}
+		return &optimize.CG{Linesearcher: c.linesearcher(), Variant: v, InitialStep: c.stepSizer(), GradStopThreshold: gs}, nil, 0
 	case mBFGS:
-		return &optimize.BFGS{Linesearcher: c.linesearcher(), GradStopThreshold: gs}
+		return &optimize.BFGS{Linesearcher: c.linesearcher(), GradStopThreshold: gs}, nil, 0
 	case mLBFGS:
-		return &optimize.LBFGS{Linesearcher: c.linesearcher(), Store: c.Store, GradStopThreshold: gs}
+		return &optimize.LBFGS{Linesearcher: c.linesearcher(), Store: c.Store, GradStopThreshold: gs}, nil, 0
 	case mNewton:
-		return &optimize.Newton{Linesearcher: c.linesearcher(), GradStopThreshold: gs}
+		return &optimize.Newton{Linesearcher: c.linesearcher(), GradStopThreshold: gs}, nil, 0
 	case mNelderMead:
-		return &optimize.NelderMead{}
+		return &optimize.NelderMead{}, nil, 0
 	case mCmaEs:
-		return &optimize.CmaEsChol{Population: c.Pop, ForgetBest: c.Forget, Src: rand.NewPCG(c.Seed, 17)}
+		pcg := rand.NewPCG(c.Seed, 17)
+		return &optimize.CmaEsChol{Population: c.Pop, ForgetBest: c.Forget, Src: pcg}, pcg, 17
 	case mGuess:
 		sigma := mat.NewSymDense(o.dim, nil)
 		for i := 0; i < o.dim; i++ {
 			sigma.SetSym(i, i, 4)
 		}
-		nrm, ok := distmv.NewNormal(o.x0, sigma, rand.NewPCG(c.Seed, 29))
+		pcg := rand.NewPCG(c.Seed, 29)
+		nrm, ok := distmv.NewNormal(o.x0, sigma, pcg)
 		if !ok {
 			panic("c19: NewNormal failed")
 		}
-		return &optimize.GuessAndCheck{Rander: nrm}
+		return &optimize.GuessAndCheck{Rander: nrm}, pcg, 29
 	default:
 		r := vk.NewSplitMix(c.Seed ^ 0xabcdef)
 		locs := mat.NewDense(c.Rows, o.dim, nil)
@@ -310,7 +366,7 @@ func (c minCase) method(o *objective) optimize.Method {
 				}
 			}
 		}
-		return &optimize.ListSearch{Locs: locs}
+		return &optimize.ListSearch{Locs: locs}, nil, 0
 	}
 }
 
@@ -374,7 +430,11 @@ type outcome struct {
 	mpanic    string
 }
 
-func runMin(c minCase) outcome {
+func runMin(c minCase) outcome { return runMinOn(c, nil) }
+
+// runMinOn runs the case with the given (already used) method value, or with a
+// fresh one when bm is nil.
+func runMinOn(c minCase, bm *builtMethod) outcome {
 	o := c.objective()
 	tp := newTape()
 	f, g, h := instrument(o, c.Bad, c.BadAfter, tp)
@@ -432,7 +492,11 @@ func runMin(c minCase) outcome {
 		out.rec = &recorder{failAt: c.Rec, tp: tp}
 		s.Recorder = out.rec
 	}
-	gm := &guardMethod{inner: c.method(o)}
+	if bm == nil {
+		bm = c.build(o)
+	}
+	bm.reseed(c.Seed)
+	gm := &guardMethod{inner: bm.m}
 	x0 := append([]float64{}, o.x0...)
 	r := vk.Call(func() { out.res, out.err = optimize.Minimize(prob, x0, s, gm) })
 	if r.Outcome != vk.Returned {
@@ -480,10 +544,42 @@ func (s *simFC) step(f float64) bool {
 	return s.stall >= s.iters
 }
 
+const keyStoppedBeforeMajor = "stopped-before-first-major-iteration-x-never-evaluated"
+
+// checkMin executes the history of the case on one method value and judges
+// every run of it.
 func checkMin(c minCase) *vk.Failure {
 	vk.Sample("minimize", c)
+	runs := c.history()
+	if len(runs) == 1 {
+		return judgeMin(runs[0], runMin(runs[0]), false)
+	}
+	vk.Class(fmt.Sprintf("min-reuse/%s/%d-runs", methodNames[c.Method], len(runs)))
+	bm := runs[0].build(runs[0].objective())
+	var deferred *vk.Failure
+	for i, r := range runs {
+		f := judgeMin(r, runMinOn(r, bm), i > 0)
+		if f == nil {
+			continue
+		}
+		f.Msg = fmt.Sprintf("run %d of %d on the same method value: %s", i+1, len(runs), f.Msg)
+		if f.Key == keyStoppedBeforeMajor && i < len(runs)-1 {
+			// the open finding about runs stopped before their first major
+			// iteration: the later runs of the history are still of interest
+			if deferred == nil {
+				deferred = f
+			}
+			continue
+		}
+		return f
+	}
+	return deferred
+}
+
+// judgeMin applies the oracles to one run. reused tells that the method value
+// had been used for earlier runs.
+func judgeMin(c minCase, out outcome, reused bool) *vk.Failure {
 	name := methodNames[c.Method]
-	out := runMin(c)
 	o := out.obj
 	desc := func() string {
 		var st optimize.Stats
@@ -787,7 +883,7 @@ func checkMin(c minCase) *vk.Failure {
 			// The run was stopped (evaluation limit, Problem.Status) before the
 			// first major iteration: X = 0, F = +Inf is reported although the
 			// objective was never evaluated there.
-			return vk.Failf("stopped-before-first-major-iteration-x-never-evaluated", "%s", desc())
+			return vk.Failf(keyStoppedBeforeMajor, "%s", desc())
 		}
 		return deferred
 	}
@@ -948,7 +1044,7 @@ func checkMin(c minCase) *vk.Failure {
 			}
 		}
 	}
-	// ---- a serial run is reproducible
+	// ---- a serial run is reproducible, and a reused method value behaves like a fresh one
 	if serial {
 		o2 := runMin(c)
 		same := o2.res != nil && o2.panicText == "" && o2.mpanic == "" &&
@@ -960,6 +1056,11 @@ func checkMin(c minCase) *vk.Failure {
 			var r2 optimize.Result
 			if o2.res != nil {
 				r2 = *o2.res
+			}
+			if reused {
+				// Method.Init "initializes the method for optimization": a used
+				// method value must behave like a new one
+				return vk.Failf("reused-method-differs-from-fresh-method", "the same run with a fresh method value: status=%v err=%v X=%v F=%v stats=%+v; with the reused one: %s", r2.Status, o2.err, r2.X, r2.F, r2.Stats, desc())
 			}
 			return vk.Failf("serial-run-not-reproducible", "second run: status=%v err=%v X=%v F=%v stats=%+v; first: %s", r2.Status, o2.err, r2.X, r2.F, r2.Stats, desc())
 		}
@@ -1026,6 +1127,19 @@ func drawMin(t *rapid.T) minCase {
 	return c
 }
 
+func drawMinHistory(t *rapid.T) minCase {
+	c := drawMin(t)
+	if rapid.IntRange(0, 9).Draw(t, "reuse") < 4 {
+		n := rapid.IntRange(1, 2).Draw(t, "nprev")
+		for i := 0; i < n; i++ {
+			p := drawMin(t)
+			p.Method = c.Method // for the objective chosen by objective()
+			c.Prev = append(c.Prev, p)
+		}
+	}
+	return c
+}
+
 func TestMinimize(t *testing.T) {
-	vk.Run(t, "minimize", vk.Opts{Quick: 8000, Thorough: 150000}, drawMin, checkMin)
+	vk.Run(t, "minimize", vk.Opts{Quick: 8000, Thorough: 150000}, drawMinHistory, checkMin)
 }
